@@ -351,7 +351,10 @@ type sut struct {
 	gen   int // generation counter for crash copies
 	root  string
 
-	everPooled map[atx]bool // transactions seen in the index at some point
+	// mirror of the specification's ghost `owed` (retention obligations of the limbo)
+	owed                      map[atx]int64
+	beforePooled, beforeLimbo map[atx]bool
+	resetPending              bool
 }
 
 var unitSize uint64 // storage size of a one-blob transaction (capacity unit)
@@ -367,7 +370,7 @@ func (s *sut) open() {
 func newSUT(root string, cfg *acfg, genesis *ablock, tip int64) *sut {
 	c := &chain{byID: map[int64]*hblock{}, byHash: map[common.Hash]*hblock{}}
 	c.head = c.add(0, genesis)
-	s := &sut{chain: c, cfg: cfg, tip: tip, root: root, dir: filepath.Join(root, "g0"), everPooled: map[atx]bool{}}
+	s := &sut{chain: c, cfg: cfg, tip: tip, root: root, dir: filepath.Join(root, "g0"), owed: map[atx]int64{}, beforePooled: map[atx]bool{}, beforeLimbo: map[atx]bool{}}
 	s.open()
 	return s
 }
@@ -513,6 +516,7 @@ func (s *sut) apply(a *act) (cls string, extra tl.M) {
 		s.chain.head, s.chain.final = nb, a.Final
 		s.chain.mu.Unlock()
 		s.pool.Reset(old.block.Header(), nb.block.Header())
+		s.resetPending = true
 		return "ok", extra
 	case "settip":
 		s.tip = a.Tip
@@ -649,25 +653,42 @@ func (s *sut) project() tl.M {
 		if len(txs) > 0 && txs[0].Nonce != s.chain.head.abs.Nonce[n] {
 			lastAligned, lastMisaligned[n] = false, true
 		}
-		for _, t := range txs {
-			s.everPooled[t] = true
-		}
 	}
-	// every transaction that was pooled and sits in a canonical block above finality must be in the
-	// limbo under that block's number
+	// retention obligations exactly as the specification's ghost `owed`: transactions of canonical blocks
+	// above finality that were owed before, pooled or in the limbo when the last Reset adopted that chain
 	inLimbo := map[atx]int64{}
 	for _, e := range limbo {
 		inLimbo[e.Tx] = e.Block
 	}
-	for b := s.chain.head; ; b = s.chain.byID[b.abs.Parent] {
-		for _, t := range b.abs.Txs {
-			if blk, ok := inLimbo[t]; s.everPooled[t] && b.abs.Num > s.chain.final && (!ok || blk != b.abs.Num) {
-				lastLimboExact = false
+	if s.resetPending {
+		s.resetPending = false
+		owed := map[atx]int64{}
+		for b := s.chain.head; ; b = s.chain.byID[b.abs.Parent] {
+			for _, t := range b.abs.Txs {
+				_, was := s.owed[t]
+				if b.abs.Num > s.chain.final && (was && s.owed[t] == b.abs.Num || s.beforePooled[t] || s.beforeLimbo[t]) {
+					owed[t] = b.abs.Num
+				}
+			}
+			if b.abs.Parent == b.id {
+				break
 			}
 		}
-		if b.abs.Parent == b.id {
-			break
+		s.owed = owed
+	}
+	for t, blk := range s.owed {
+		if got, ok := inLimbo[t]; !ok || got != blk {
+			lastLimboExact = false
 		}
+	}
+	s.beforePooled, s.beforeLimbo = map[atx]bool{}, map[atx]bool{}
+	for _, txs := range lastPooled {
+		for _, t := range txs {
+			s.beforePooled[t] = true
+		}
+	}
+	for t := range inLimbo {
+		s.beforeLimbo[t] = true
 	}
 	return tl.M{
 		"idx": idx, "spent": spent, "stored": vs.Stored / unitSize, "lookup": lookup, "lblobs": vs.LookupBlobs,
@@ -883,8 +904,8 @@ func runRecord(root, trace string, seed int64, ntraces, nsteps int, sum *tl.Summ
 	tr := tl.NewTrace(trace)
 	defer tr.Close()
 	tips := []int64{1, 2, 5, 10}
-	caps := []int64{900, 1100, 1500, 2400, 5000}
-	bcaps := []int64{5, 30, 60, 130}
+	caps := []int64{600, 900, 1100, 1500, 2400, 5000} // some below the head base fees: negative priorities
+	bcaps := []int64{2, 5, 30, 60, 130}
 	bals := []int64{30_000_000, 60_000_000, 130_000_000, 300_000_000, 1_000_000_000}
 	for t := 0; t < ntraces; t++ {
 		cfg := &acfg{Cap: int64(2 + r.Intn(4)), Bump: []int64{100, 100, 50}[r.Intn(3)]}
@@ -916,7 +937,7 @@ func runRecord(root, trace string, seed int64, ntraces, nsteps int, sum *tl.Summ
 			pooled := lastPooled
 			var a act
 			switch c := r.Intn(100); {
-			case c < 64:
+			case c < 60:
 				from := acctNames[r.Intn(len(acctNames))]
 				for k := 0; lastMisaligned[from] && k < 8; k++ {
 					// nothing is specified for further submissions of an account that the known finding
@@ -959,7 +980,7 @@ func runRecord(root, trace string, seed int64, ntraces, nsteps int, sum *tl.Summ
 				}
 				remember(tx)
 				a = act{Op: "add", Tx: &tx}
-			case c < 83:
+			case c < 78:
 				if len(blocks) > 1 && r.Intn(8) == 0 { // jump to an existing block
 					ids := []int64{}
 					for id, b := range blocks {
@@ -1022,7 +1043,7 @@ func runRecord(root, trace string, seed int64, ntraces, nsteps int, sum *tl.Summ
 				}
 				a = act{Op: "reset", ID: id, Block: nb, Final: final}
 			case c < 90:
-				a = act{Op: "settip", Tip: []int64{1, 2, 5, 3}[r.Intn(4)]}
+				a = act{Op: "settip", Tip: []int64{1, 2, 5, 3, 10}[r.Intn(5)]}
 			case c < 96:
 				a = act{Op: "reopen"}
 			default:
